@@ -359,6 +359,14 @@ impl<F: Read + Seek> Package<F> {
                 for row in rows {
                     let table_name =
                         cell_str(&row[0], TABLES_TABLE_NAME)?.to_string();
+                    if !Table::is_valid_name(&table_name) {
+                        invalid_data!(
+                            "Malformed {:?} table: {:?} is not a valid table \
+                             name",
+                            TABLES_TABLE_NAME,
+                            table_name
+                        );
+                    }
                     if names.contains(&table_name) {
                         invalid_data!(
                             "Repeated key in {:?} table: {:?}",
